@@ -1,2 +1,13 @@
-def jobs(tier, seed):
-    return []
+import vf
+def jobs(tier, seed, prop='C14'):
+    U = [vf.Unit('cmdline/sync.c', flags=vf.PATHMAX64, remove=['__CPROVER_file_local_sync_c_state_sync_process', '__CPROVER_file_local_sync_c_state_hash_process'])]
+    J = []
+    levels = [1, 2, 3] if tier == 'quick' else [1, 2, 3, 4, 6]
+    for n in levels:
+        for refusal in (0, 1):
+            J.append(vf.Job('%s/state_sync/levels%d%s' % (prop, n, '-refusal' if refusal else ''), ['C14_statesync.c', 'stubs/log_stubs.c'], units=U, entry='c14_state_sync', defines=['NLEV=%d' % n] + (['EXPECT_REFUSAL'] if refusal else []),
+                            cflags=vf.PATHMAX64, unwind=26, timeout=900, mem_gb=6, native=False, decisive=r'VF:|unwinding', funcs=['state_sync'], cost=10,
+                            sample={'parity levels': n, 'blocks in each parity file / allocated / used': 'symbolic', 'force_full, force_realloc, prehash, need_write': 'symbolic', 'failures of create/resize/hash/process': 'symbolic'}))
+    J.append(vf.Job('%s/state_sync/negctl' % prop, ['C14_statesync.c', 'stubs/log_stubs.c'], units=U, entry='c14_negctl', defines=['NLEV=1', 'NEGCTL'], cflags=vf.PATHMAX64, unwind=26, kind='negctl', native=False,
+                    decisive=r'VF:|unwinding', sample={'wrong_oracle': 'content saved after the stripes'}))
+    return J
